@@ -25,7 +25,7 @@
    the real code under the property observers: the unchanged code passes, an implementation that has the bug fails.
      "no_inval" "partial_ok" "no_old_recv" "le_old" "no_old_send" "no_clear_req" "eph_in_dosend" "eph_ffwd"
      "no_rerequest" "bal_all_pubs" "no_required" "prefetch_first_hop" "no_unregister" "id_not_carried" "hello_counts"
-     "inval_complete_only" "C01b_state" "bal_unlock_on_enter" "bal_eph_reenables" *)
+     "inval_complete_only" "C01b_state" "bal_unlock_on_enter" "bal_eph_reenables" "stale_t" *)
 EXTENDS Integers, Sequences, FiniteSets, TLC
 
 CONSTANTS
@@ -50,6 +50,7 @@ CONSTANTS
   ExitKind,    \* [Filters -> {"clean", "error"}]  by exit() or by raising
   PropExit,    \* [Filters -> SUBSET {"clean", "error"}]  prop_exit policy: which kinds of its own ending it announces
   ObeyExit,    \* [Filters -> SUBSET {"clean", "error"}]  obey_exit policy: which announced kinds make it end too
+  Blocking,    \* subset of Filters: applications that drive MQ.recv() / MQ.send() with timeout = None (no 100 ms slices)
   CheckC03,    \* evaluate C03 (meaningful only without faults, with the handshake on and required outputs declared)
   TopicOrder   \* sequence of all topic names: the dict order in which a frame set is published
 
@@ -134,7 +135,8 @@ InitRecvd(c) == IF Explicit(c) THEN [some |-> TRUE,  e |-> [t \in SubTopics(c) |
 InitSrc(c, conn) == [conn |-> conn, reg |-> TRUE, emin |-> 0] @@ InitRecvd(c)
 InitSrcs(f) == [i \in 1..NSrc(f) |-> InitSrc(<<f, i>>, FALSE)]
 InitMQ      == [ss |-> NoneSt, sbal |-> 0, rs |-> NoneSt, frames |-> EmptyF, has |-> FALSE, inp |-> EmptyF]
-InitSL      == [mid |-> 0, bal |-> 0, doSend |-> FALSE, doHello |-> FALSE, outs |-> {}]
+InitSL      == [mid |-> 0, bal |-> 0, doSend |-> FALSE, doHello |-> FALSE, outs |-> {}, waited |-> 0]
+\* waited: ZMQ_POLL_TIMEOUT ticks spent in this send() call; only kept by the design mutation "stale_t" (one clock read per call)
 StartPC(f)  == IF IsOrigin(f) THEN "gen" ELSE "r_enter"
 
 Init ==
@@ -399,16 +401,20 @@ RPoll0Empty(f) ==
 (* Ageing: a poll/sleep timeout of filter g lets ZMQ_POLL_TIMEOUT of g's time pass; a client whose last request is
    older than ZMQ_CONN_TIMEOUT is dropped the next time a request is handled (zeromq.py:387-396). *)
 Aged(cl) == IF ConnTicks = 0 THEN cl     \* ConnTicks = 0: connections never time out (expiry not modelled)
-            ELSE [n \in 1..Len(cl) |-> [cl[n] EXCEPT !.age = IF @ > ConnTicks THEN @ ELSE @ + 1]]
+            ELSE [n \in 1..Len(cl) |-> [cl[n] EXCEPT !.age = IF @ > ConnTicks THEN @ ELSE @ + 1,
+                                                       !.sil = IF @ > ConnTicks THEN @ ELSE @ + 1]]
+\* age = now - t_last as the sender computes it; sil (ghost) = time since the client's last request.  They differ only under
+\* the design mutation "stale_t".
 
-\* poll(100) times out: second request of the slice with the possibly adopted id, recv returns None, loop_once calls again
+\* poll(100) times out: second request of the slice with the possibly adopted id, recv returns None, loop_once calls again.
+\* With timeout = None (zeromq.py:944-945) recv() does not return: it requests again and polls for another ZMQ_POLL_TIMEOUT.
 RTimeout(f) ==
   /\ pc[f] = "r_wait"
   /\ Ready(f) = {}
   /\ reqq' = IF D("no_rerequest") THEN reqq ELSE Request(f, rmin[f] - 1, rsrc[f], reqq)
   /\ rsrc' = [rsrc EXCEPT ![f] = ReqConn(f, rsrc[f], reqq)]
   /\ clients' = [clients EXCEPT ![f] = Aged(@)]
-  /\ pc' = [pc EXCEPT ![f] = "r_enter"]
+  /\ pc' = [pc EXCEPT ![f] = IF f \in Blocking THEN "r_wait" ELSE "r_enter"]
   /\ lbl' = <<"timeout", f, 0>>
   /\ UNCHANGED <<minSend, sl, prevId, rmin, rbal, mq, oseq, pubq, subq, pullq, linkUp, inc, stalled, nfaults, gvars>>
 
@@ -581,7 +587,9 @@ PutClient(cl, r) == IF HasClient(cl, r.c, r.inc)
                     THEN [n \in 1..Len(cl) |-> IF cl[n].c = r.c /\ cl[n].inc = r.inc THEN r ELSE cl[n]]
                     ELSE Append(cl, r)
 DelClient(cl, c, i) == SelectSeq(cl, LAMBDA r : ~(r.c = c /\ r.inc = i))
-Expire(cl) == IF ConnTicks = 0 THEN cl ELSE SelectSeq(cl, LAMBDA r : r.age <= ConnTicks)
+ExpireW(cl, w) == IF ConnTicks = 0 THEN cl ELSE SelectSeq(cl, LAMBDA r : r.age - w <= ConnTicks)
+Expire(cl) == ExpireW(cl, 0)
+EarlyEvict(cl, w) == ConnTicks > 0 /\ \E n \in 1..Len(cl) : cl[n].age - w > ConnTicks /\ cl[n].sil <= ConnTicks
 
 \* do_send / outputs recomputation (zeromq.py:387-412) over the client list after expiry
 OutStat(cl, o) ==      \* (output do_send, # requested, max prev_id) of bound output o, None if it has no client
@@ -694,7 +702,8 @@ SPollMsg(f, phase) ==
                        /\ sl' = [sl EXCEPT ![f].doHello = TRUE]
                        /\ pc' = [pc EXCEPT ![f] = IF waitph THEN "s_wait_h" ELSE "s_drain_h"]
                        /\ UNCHANGED <<clients, minSend, mq, pubq, oseq, plog, ahead, bad>>
-                  ELSE LET cl1 == PutClient(cl, [c |-> c, inc |-> m.inc, req |-> TRUE, eph |-> m.eph, prev |-> m.mid, age |-> 0])
+                  ELSE LET cl1 == PutClient(cl, [c |-> c, inc |-> m.inc, req |-> TRUE, eph |-> m.eph, prev |-> m.mid,
+                                                 age |-> IF D("stale_t") THEN lc.waited ELSE 0, sil |-> 0])
                        IN IF m.mid >= lc.mid /\ (m.eph = 0 \/ D("eph_ffwd"))
                           THEN \* 379-385: downstream asks for a newer id: fast-forward, send() returns as if sent
                                /\ clients' = [clients EXCEPT ![f] = cl1]
@@ -702,11 +711,13 @@ SPollMsg(f, phase) ==
                                /\ mq' = [mq EXCEPT ![f].rs = m.mid + 1, ![f].ss = NoneSt, ![f].has = FALSE, ![f].frames = EmptyF]
                                /\ pc' = [pc EXCEPT ![f] = AfterSend(f)]
                                /\ UNCHANGED <<sl, pubq, oseq, plog, ahead, bad>>
-                          ELSE LET cl2 == Expire(cl1)                      \* 387-396
+                          ELSE LET wt  == IF D("stale_t") THEN lc.waited ELSE 0
+                                   cl2 == ExpireW(cl1, wt)                 \* 387-396
                                    lc1 == [lc EXCEPT !.doSend = DoSend(f, cl2)]
                                IN /\ bad' = bad \cup
                                        (IF \E n \in 1..Len(cl2) : cl2[n].eph = 0 /\ ~cl2[n].req /\ lc1.doSend /\ ~OutBal[f]
-                                        THEN {"C05_GuardSync"} ELSE {})
+                                        THEN {"C05_GuardSync"} ELSE {}) \cup
+                                       (IF EarlyEvict(cl1, wt) THEN {"C04_EarlyEvict"} ELSE {})
                                   /\ IF waitph
                                      THEN SendMaybe(f, lc1, cl2, "s_wait")
                                      ELSE /\ clients' = [clients EXCEPT ![f] = cl2]
@@ -730,11 +741,23 @@ SPollEmpty(f) ==
 \* poll(remaining) in the wait loop times out: send returns None, MQ.send returns False, loop_once calls send again
 STimeout(f) ==
   /\ pc[f] = "s_wait"
+  /\ f \notin Blocking          \* send(timeout = None) waits in poll(None) until a request arrives (zeromq.py:497-500)
   /\ ReadyOut(f) = {}
   /\ pc' = [pc EXCEPT ![f] = "s_enter"]
   /\ clients' = [clients EXCEPT ![f] = Aged(@)]
   /\ lbl' = <<"timeout", f, 0>>
   /\ UNCHANGED <<minSend, sl, prevId, rmin, rbal, rsrc, mq, oseq, pubq, subq, reqq, pullq, linkUp, inc, stalled,
+                 nfaults, gvars>>
+
+\* send(timeout = None) stays in poll(None): ZMQ_POLL_TIMEOUT of the sender's time passes, nothing else happens
+SBlockTick(f) ==
+  /\ pc[f] = "s_wait"
+  /\ f \in Blocking /\ ConnTicks > 0
+  /\ ReadyOut(f) = {}
+  /\ clients' = [clients EXCEPT ![f] = Aged(@)]
+  /\ sl' = [sl EXCEPT ![f].waited = IF D("stale_t") /\ @ <= ConnTicks THEN @ + 1 ELSE @]
+  /\ lbl' = <<"timeout", f, 0>>
+  /\ UNCHANGED <<pc, minSend, prevId, rmin, rbal, rsrc, mq, oseq, pubq, subq, reqq, pullq, linkUp, inc, stalled,
                  nfaults, gvars>>
 
 \* receiver.destroy(): the ZMQ_EXPLICIT_LINGER sleep is over, the SUB / PUSH sockets are closed; then sender.destroy() publishes
@@ -832,7 +855,7 @@ StepNT(f) ==
      \/ SPollMsg(f, "s_drain") \/ SPollMsg(f, "s_drain_h") \/ SPollMsg(f, "s_wait") \/ SPollMsg(f, "s_wait_h")
      \/ SPollOob(f, "s_drain") \/ SPollOob(f, "s_drain_h") \/ SPollOob(f, "s_wait") \/ SPollOob(f, "s_wait_h")
      \/ SPollEmpty(f)
-StepTO(f) == Runs(f) /\ (RTimeout(f) \/ STimeout(f) \/ WorkDone(f) \/ XClose1Done(f) \/ XClose2Done(f))
+StepTO(f) == Runs(f) /\ (RTimeout(f) \/ STimeout(f) \/ SBlockTick(f) \/ WorkDone(f) \/ XClose1Done(f) \/ XClose2Done(f))
 
 Net    == \E c \in Conns : Establish(c) \/ DeliverPub(c) \/ DeliverReq(c)
 Fault  == \/ \E c \in Conns : DropPub(c)
@@ -894,6 +917,7 @@ C07 == bad \cap {"C07_Rejoin"} = {} /\ C07_OneBranch
 C03 == "C03_Prefix" \notin bad
 C03_AllDelivered == \A f \in Filters : C03Applies(f) => ndeliv[f] = Cardinality(ExpIds(f))
 C03_Complete == <>[]C03_AllDelivered
+C04_NoEarlyEvict == "C04_EarlyEvict" \notin bad     \* a client is dropped only after ZMQ_CONN_TIMEOUT of silence
 C04_Bounded == \A c \in Conns : ahead[c] <= 9
 C04_Tight(n) == \A c \in Conns : ahead[c] <= n        \* the bound the design actually achieves (per configuration)
 C04_Tight1 == C04_Tight(1)
